@@ -33,6 +33,11 @@ type binding struct {
 type Environment struct {
 	vars   map[string]binding
 	parent *Environment
+
+	// depth, when set, is the evaluation depth counter of the request this
+	// scope belongs to (see Interpreter.EvaluateExpression). Child scopes and
+	// snapshots inherit it, so every request counts its own recursion.
+	depth *int64
 }
 
 // NewEnvironment creates a new environment
@@ -45,10 +50,14 @@ func NewEnvironment() *Environment {
 
 // NewChildEnvironment creates a child environment with a parent scope
 func NewChildEnvironment(parent *Environment) *Environment {
-	return &Environment{
+	e := &Environment{
 		vars:   make(map[string]binding),
 		parent: parent,
 	}
+	if parent != nil {
+		e.depth = parent.depth
+	}
+	return e
 }
 
 // Snapshot returns a copy of the environment chain: every scope's bindings are
@@ -63,6 +72,7 @@ func (e *Environment) Snapshot() *Environment {
 	c := &Environment{
 		vars:   make(map[string]binding, len(e.vars)),
 		parent: e.parent.Snapshot(),
+		depth:  e.depth,
 	}
 	for name, b := range e.vars {
 		c.vars[name] = b
